@@ -1,6 +1,7 @@
 (* C20 — numbers read back by checks/c20.py (vlib.coq_eval_cases evaluates terms of type list nat).
 
-   obs_pipe p        = [wf; blocks; executed steps; callbacks invoked; final state; code of every executed site ...]
+   obs_pipe p        = [wf; blocks; executed steps; callbacks invoked; final state; error-payload copies; value-payload copies;
+                        code of every executed site ...]
                        final state: 0 value, 1 error, 2 exception; site code = 2 * kind + blocks requested there,
                        kind: 0 conversion, 1 MakeFuture/MakeTask, 2 contract, 3 Run/Schedule, 4 AsyncContract, 5 coroutine,
                        6 Then*, 7 Detach*(f)/Subscribe*, 8 Detach(), 9 Split, 10 Share
@@ -21,7 +22,7 @@ Definition enc_site (k : skind) : nat := 2 * enc_kind k + site_blocks k.
 
 Definition obs_pipe (p : pipe) : list nat :=
   let o := run p in
-  [encb (wf p); allocs_pipeline p; steps p; calls o; enc_res (st o)] ++ map enc_site (sites o).
+  [encb (wf p); allocs_pipeline p; steps p; calls o; enc_res (st o); error_copies p; value_copies p] ++ map enc_site (sites o).
 
 Definition range (n : nat) : list nat := seq 0 (S n).
 
